@@ -5,6 +5,7 @@ Program level: lui+addi, lui+lw/sw, auipc+addi, auipc+jalr pairs written with %h
 labels and %position expressions are *executed* on the reference ISS; the pair must address exactly v.
 """
 import random
+import re
 import time
 
 from .. import core, monitors
@@ -276,10 +277,30 @@ def run_program(asm, acc, lines, checks, compress, seedinfo):
         acc['notes'].append('refused: %r' % (lay.obs.exc,)) if len(acc['notes']) < 3 else None
         txt = (lay.obs.exc.get('contents') or '').strip()
         if lay.obs.exc.get('is_asm_error') and ('%hi' in txt or '%lo' in txt or txt.lower().startswith('li ')) and not any(n in txt for n in ('LA', 'LB', 'LP', 'LSTART', 'LMID', '%position', '%offset', 'FARFN')):
-            # "for every 32-bit value v, %hi(v) fits the upper-immediate field and %lo(v) the signed 12-bit field": every value of these
-            # programs that is written as a literal or through constants is a 32-bit value (in a signed or an unsigned spelling; label sums may
-            # pass 2^32 and are left out here), so a refusal that names such a consumer of %hi / %lo says one of the two did not fit
-            core.add_viol(acc, 'the line `%s` is refused (%s) although its operand is a 32-bit value (compress=%s)' % (txt[:120], lay.obs.exc['msg'][:160], compress), case, {})
+            # "for every 32-bit value v, %hi(v) fits the upper-immediate field and %lo(v) the signed 12-bit field": if the operand of the
+            # refused consumer (a literal, or an expression over the program's constants - evaluated here with plain integer arithmetic) is
+            # a 32-bit value in a signed or an unsigned spelling, the refusal says one of the two did not fit.  Spellings beyond 32 bits
+            # (the generator writes some: `739905 + V1` = 2^32 + 6145) may be refused or wrapped - the statement does not say
+            env = {}
+            for ln in lines:
+                mm = re.match(r"^\s*([A-Za-z_]\w*)\s*=\s*([^#]+)$", ln)
+                if mm:
+                    try:
+                        env[mm.group(1)] = int(eval(mm.group(2), {'__builtins__': {}}, dict(env)))
+                    except Exception:      # noqa - a definition this little evaluator cannot read: the name stays unknown
+                        pass
+            cands = sorted((chk[4] for chk in checks if len(chk) > 4 and isinstance(chk[4], str) and
+                            re.search(r'(?<![\w.])' + re.escape(chk[4]) + r'(?![\w.])', txt)), key=len, reverse=True)[:1]
+            for e in cands:
+                try:
+                    v = int(eval(e, {'__builtins__': {}}, dict(env)))
+                except Exception:          # noqa
+                    continue
+                if -(1 << 31) <= v < (1 << 32):
+                    core.add_viol(acc, 'the line `%s` is refused (%s) although its operand %s = %d is a 32-bit value (compress=%s)' % (
+                        txt[:120], lay.obs.exc['msg'][:160], e[:80], v, compress), case, {})
+                    break
+                acc['ctr']['refused_consumers_of_a_value_beyond_32_bits'] += 1
         return
     if lay.chunks is None or not lay.order_ok:
         core.add_viol(acc, 'layout not in source order: ' + lay.why, case, {})
